@@ -117,3 +117,34 @@ class UserFn(Opaque):
         self.name = name
         self.params = list(params)
         self.calls = []
+
+
+class AnySeq(Opaque):
+    """a local container after a loop havoc: membership / content unknown, writes absorbed; iterating it gives an abstract
+    stream of (at least possibly one) arbitrary members -- what a collect-then-yield rewrite of an operator would iterate"""
+
+    def __init__(self, name, member):
+        super().__init__("anyseq:" + name)
+        self.name, self.member = name, member
+
+    def m_getattr(self, vm, name):
+        if name in ("append", "add", "extend", "update", "clear", "remove", "discard", "insert", "setdefault", "pop"):
+            return Builtin("anyseq." + name, lambda it, fr, a, k: None)
+        if name in ("values", "items", "keys", "copy"):
+            return Builtin("anyseq." + name, lambda it, fr, a, k: self)
+        vm.raise_("AttributeError", name)
+
+    def m_iter(self, vm):
+        return SymStream(f"held-back-{self.name}", lambda it, i: self.member(it), length=vm.ctx.fresh_int("n_held"))
+
+    def m_contains(self, vm, k):
+        return SBool(vm.ctx.fresh_bool("in_held"))
+
+    def m_truth(self, vm):
+        return SBool(vm.ctx.fresh_bool("held_nonempty"))
+
+    def m_setitem(self, vm, k, v):
+        return None
+
+    def m_getitem(self, vm, k):
+        return self.member(vm)
